@@ -231,6 +231,18 @@ def findAllOrfsRec (rec : Seq) (genes : List Lookup.Gene) (area : Option Loc) (m
   let rp := recordParts rec.length genes area
   findAllOrfs rec rp.1 rp.2 minLen pad
 
+/-- `return sorted(new_features)`: stable, by `Feature.__lt__` (C08's model `Lookup.locLt`:
+    key `(start — or the negative head start of an origin-crossing location —, len)`) -/
+def insertLoc (x : Loc) : List Loc → List Loc
+  | [] => [x]
+  | y :: ys => if Lookup.locLt y x then y :: insertLoc x ys else x :: y :: ys
+def sortLocs (l : List Loc) : List Loc := l.foldr insertLoc []
+
+/-- `find_all_orfs(record, area, …)`: the locations of the features returned, in the order returned -/
+def findAllOrfsSorted (rec : Seq) (genes : List Lookup.Gene) (area : Option Loc) (minLen pad : Int) :
+    Option (List Loc) :=
+  (findAllOrfsRec rec genes area minLen pad).map sortLocs
+
 /-! ### `create_feature_from_location`: the default label -/
 
 def zeroPad (digits : Nat) (s : String) : String :=
